@@ -14,7 +14,7 @@ import (
 )
 
 func init() {
-	register(&Prop{ID: "C06", Module: "V.C06.Check", Gen: c06Gen, Quick: 900, Thorough: 15000, Shard: 70})
+	register(&Prop{ID: "C06", Module: "V.C06.Check", Gen: c06Gen, Quick: 600, Thorough: 15000, Shard: 40})
 }
 
 func c06OptStrs(ok bool, xs []string) string {
@@ -109,7 +109,10 @@ func c06BoardCases(p c09Prog, b *c09Board, input map[string]any) []Case {
 		Nontrivial: nontriv}
 	c2.Coq = "CParse " + body
 	if hazard {
-		c2.KF = []string{"C05-reserved-keyword-case-key"}
+		c2.KF = append(c2.KF, "C05-reserved-keyword-case-key")
+	}
+	if c09RootTableEdge(b) {
+		c2.KF = append(c2.KF, "C09-root-table-edge")
 	}
 	return []Case{c1, c2}
 }
@@ -130,7 +133,7 @@ func c06Cases(p c09Prog) []Case {
 		if i >= 4 {
 			break
 		}
-		if len(b.Objs) == 0 {
+		if len(b.Objs) == 0 && len(b.Edges) == 0 {
 			continue
 		}
 		out = append(out, c06BoardCases(p, b, input)...)
@@ -178,6 +181,7 @@ var c06Corpus = []c09Prog{
 	{Text: "\"a\\nb\".\"c\\\\\" -> \"#\"\n"},
 	{Text: "t: {shape: sql_table; \"a.b\": int}\nt.\"a.b\" -> u.\"x y\"\n"},
 	{Text: "x -> y\nlayers: {\"l.1\": {\"p.q\" -> r.\"s.t\"}}\n"},
+	{Text: "shape: sql_table\nid: int\nid -> name\n"},
 }
 
 func c06Gen(r *Rng, tier string, n int) []Case {
